@@ -27,6 +27,8 @@ pub enum MNode {
 	FloatStable(String),
 	/// float literal compared by f64 bits only
 	FloatFree(String),
+	/// f32-suffixed literal: (Rust literal, JSON text = shortest round-trip digits of that f32)
+	FloatF32(String, String),
 	Str(String),
 	/// `Value::from(<scalar expr>)`
 	Expr(Box<MNode>),
@@ -66,11 +68,12 @@ impl MNode {
 				out.push_str(s)
 			}
 			MNode::FloatStable(t) | MNode::FloatFree(t) => out.push_str(t),
+			MNode::FloatF32(lit, _) => out.push_str(lit),
 			MNode::Str(s) => out.push_str(&rust_str(s)),
 			MNode::Expr(inner) => match &**inner {
 				MNode::Null => out.push_str("Value::from(Value::Null)"),
 				// floats only have TryFrom
-				f @ (MNode::FloatStable(_) | MNode::FloatFree(_)) => {
+				f @ (MNode::FloatStable(_) | MNode::FloatFree(_) | MNode::FloatF32(..)) => {
 					out.push_str("Value::try_from(");
 					f.rust(out);
 					out.push_str(").unwrap()");
@@ -120,6 +123,7 @@ impl MNode {
 			MNode::Int(i) => out.push_str(&i.to_string()),
 			MNode::IntSuffixed(t, _) => out.push_str(t),
 			MNode::FloatStable(t) | MNode::FloatFree(t) => out.push_str(t),
+			MNode::FloatF32(_, text) => out.push_str(text),
 			MNode::Str(s) => crate::refprint::escape_string(s, out),
 			MNode::Expr(inner) => inner.json(out),
 			MNode::Arr(items, _) => {
@@ -149,11 +153,31 @@ impl MNode {
 
 	fn has_free_float(&self) -> bool {
 		match self {
-			MNode::FloatFree(_) => true,
+			MNode::FloatFree(_) | MNode::FloatF32(..) => true,
 			MNode::Expr(i) => i.has_free_float(),
 			MNode::Arr(a, _) => a.iter().any(|x| x.has_free_float()),
 			MNode::Obj(o, _) => o.iter().any(|(_, x)| x.has_free_float()),
 			_ => false,
+		}
+	}
+
+	/// 0 = strict equality, 1 = free floats by f64 bits, 2 = the document has f32-suffixed literals (same f32)
+	fn float_mode(&self) -> u8 {
+		fn has_f32(n: &MNode) -> bool {
+			match n {
+				MNode::FloatF32(..) => true,
+				MNode::Expr(i) => has_f32(i),
+				MNode::Arr(a, _) => a.iter().any(has_f32),
+				MNode::Obj(o, _) => o.iter().any(|(_, x)| has_f32(x)),
+				_ => false,
+			}
+		}
+		if has_f32(self) {
+			2
+		} else if self.has_free_float() {
+			1
+		} else {
+			0
 		}
 	}
 
@@ -211,6 +235,13 @@ fn arb_scalar() -> BoxedStrategy<MNode> {
 			MNode::FloatStable(format!("{}{int}.{f}", if neg { "-" } else { "" }))
 		}),
 		2 => prop::sample::select(vec!["1e5", "2.5E-3", "100.0", "1e21", "1.0", "-0.0", "0.1e1", "1.7976931348623157e308", "5e-324", "123456789.123456789", "1E+2", "3.14159e0"]).prop_map(|s| MNode::FloatFree(s.to_string())),
+		// f32-suffixed literals: whole numbers beyond 2^24, fractions, extremes; expected text = shortest f32 digits
+		2 => prop_oneof![
+			3 => any::<u32>().prop_map(|b| f32::from_bits(b)),
+			2 => (16_000_000u32..4_000_000_000).prop_map(|i| i as f32),
+			1 => prop::sample::select(vec![1.5f32, 0.1, 123456789.0, 2147483648.0, 16777217.0, 3e9, 1.1e10, f32::MAX, f32::MIN_POSITIVE, 1e-45, -0.0, 0.0]),
+		]
+		.prop_filter_map("finite", |f| if f.is_finite() { Some(MNode::FloatF32(format!("{f:?}f32"), format!("{f:?}"))) } else { None }),
 		4 => gen::arb_string().prop_map(MNode::Str),
 	]
 	.boxed()
@@ -233,15 +264,19 @@ const HEADER: &str = r#"#![recursion_limit = "1024"]
 #![allow(unused_imports, clippy::all)]
 use json_syntax::{json, object::Key, Parse, Value};
 
-fn same(a: &Value, b: &Value, free: bool) -> bool {
+fn same(a: &Value, b: &Value, free: u8) -> bool {
 	match (a, b) {
 		(Value::Number(x), Value::Number(y)) => {
 			if x.as_str() == y.as_str() {
 				true
-			} else if free {
+			} else if free >= 1 {
 				let fx: f64 = x.as_str().parse().unwrap();
 				let fy: f64 = y.as_str().parse().unwrap();
-				fx.to_bits() == fy.to_bits() || (fx == 0.0 && fy == 0.0)
+				if fx.to_bits() == fy.to_bits() || (fx == 0.0 && fy == 0.0) {
+					return true;
+				}
+				// documents holding f32-suffixed literals: the number must denote the same f32
+				free >= 2 && (fx as f32).to_bits() == (fy as f32).to_bits()
 			} else {
 				false
 			}
@@ -252,11 +287,11 @@ fn same(a: &Value, b: &Value, free: bool) -> bool {
 	}
 }
 
-fn check(i: usize, built: Value, text: &str, free: bool) {
+fn check(i: usize, built: Value, text: &str, free: u8) {
 	match Value::parse_str(text) {
 		Ok((parsed, _)) => {
 			// without free floats the crate's own equality must hold as well
-			if same(&built, &parsed, free) && (free || built == parsed) {
+			if same(&built, &parsed, free) && (free > 0 || built == parsed) {
 				println!("OK {i}");
 			} else {
 				println!("FAIL {i} macro={} parsed={}", built, parsed);
@@ -283,7 +318,7 @@ impl Batch {
 				d.rust(&mut rust);
 				let mut text = String::new();
 				d.json(&mut text);
-				s.push_str(&format!("\t\tcheck({i}, json!({rust}), {}, {});\n", rust_str(&text), d.has_free_float()));
+				s.push_str(&format!("\t\tcheck({i}, json!({rust}), {}, {});\n", rust_str(&text), d.float_mode()));
 			}
 			s.push_str("\t}\n}\n");
 		}
@@ -425,6 +460,7 @@ pub fn run(ctx: &mut Ctx) {
 		}
 	}
 	ctx.add(fam);
+	ctx.assume("an f32-suffixed literal denotes an f32: the macro's number must parse to the same f32 as the literal (the unchanged crate does not always print shortest f32 digits: json!(144123800.0f32) is 144123810)");
 	ctx.assume("stable floats (<= 15 significant digits, magnitude 1e-4..1e8, non-zero fraction, no trailing zero) are printed verbatim by any shortest round-trip formatter and are compared textually; other float literals by f64 bits");
 }
 
@@ -452,7 +488,7 @@ pub fn replay(_family: &str, case: &J) -> Result<(), String> {
 	// rebuild a one-document program from the recorded source text
 	let rust = case["rust"].as_str().ok_or("bad case")?;
 	let text = case["json_text"].as_str().ok_or("bad case")?;
-	let src = format!("{HEADER}\nfn main() {{\n\tcheck(0, {rust}, {}, true);\n}}\n", rust_str(text));
+	let src = format!("{HEADER}\nfn main() {{\n\tcheck(0, {rust}, {}, 2);\n}}\n", rust_str(text));
 	let dir = verif_dir().join("scratch").join(format!("c19-replay-{}", std::process::id()));
 	let _ = std::fs::remove_dir_all(&dir);
 	std::fs::create_dir_all(dir.join("src")).map_err(|e| e.to_string())?;
